@@ -33,6 +33,7 @@ import mpservice.mpserver._server as _srvmod
 import mpservice.mpserver._servlet as _svlmod
 import mpservice.mpserver._worker as _wkmod
 from mpservice.mpserver import (
+    AsyncServer,
     EnsembleError,
     EnsembleServlet,
     SequentialServlet,
@@ -338,7 +339,8 @@ def gen_case(rng: random.Random, tier: str, bias: str = ''):
     ch = rng.choice([('random', early), ('random', early), ('sticky', 0.2, early), ('sticky', 0.05, early),
                      ('pct', 2, 800, early), ('pct', 3, 800, early)])
     return dict(tree=tree, callers=callers, nreq=nreq, cap=rng.choice([1, 2, 3, 8, 8]),
-                adversarial_id=rng.random() < 0.8, chooser=list(ch), seed=rng.randrange(1 << 30))
+                adversarial_id=rng.random() < 0.8, asyncsrv=rng.random() < 0.25, chooser=list(ch),
+                seed=rng.randrange(1 << 30))
 
 
 def f2_case(rng: random.Random):
@@ -412,6 +414,10 @@ class AdversarialId:
 # ----------------------------------------------------------------------------------------------
 # one run
 # ----------------------------------------------------------------------------------------------
+
+class _AsyncDone(Exception):
+    pass
+
 
 class _LedgerWarnings(logging.Handler):
     def __init__(self):
@@ -564,6 +570,86 @@ def run_case(case):
             excs[r] = (check_traceback(e), repr(e))
         ev.append(('outcome', r) + tuple(out))
 
+    async def amain(servlet, box):
+        """the same scenario against `AsyncServer`: callers are tasks of a cooperative event loop
+        (its selector wait is a scheduler wait), the servlet tree and the gather thread are threads"""
+        import asyncio
+        srv = AsyncServer(servlet, capacity=case['cap'])
+        async with srv:
+            box['wiring'] = wiring(srv)
+
+            async def do_call(q):
+                r = q['r']
+                ev.append(('call', r))
+                try:
+                    y = await srv.call(r, timeout=q['timeout'], backpressure=q['bp'])
+                    record(r, ('val', enc(y)))
+                except ServerBacklogFull:
+                    record(r, ('full',))
+                except TimeoutError:
+                    record(r, ('timeout', int(q['timeout'] >= FOREVER)))
+                except asyncio.CancelledError:
+                    raise
+                except BaseException as e:  # noqa
+                    record(r, ('val', enc(e)), e)
+                    del e
+
+            async def caller(spec):
+                if spec['kind'] == 'call':
+                    for q in spec['reqs']:
+                        for _ in range(q['delay']):
+                            detsched.yield_here('delay')
+                            await asyncio.sleep(0)
+                        await do_call(q)
+                    return
+                got = []
+                endk = ('end',)
+
+                async def src():
+                    for r in spec['reqs']:
+                        yield r
+                try:
+                    gen = srv.stream(src(), return_x=True, return_exceptions=spec['rexc'], timeout=FOREVER)
+                    async for x, y in gen:
+                        got.append(x)
+                        if is_exc(y):
+                            record(x, ('val', enc(y)), unwrap(y))
+                        else:
+                            record(x, ('val', enc(y)))
+                        if spec['stop_after'] is not None and len(got) == spec['stop_after']:
+                            await gen.aclose()
+                            endk = ('closed',)
+                            break
+                except asyncio.CancelledError:
+                    raise
+                except BaseException as e:  # noqa
+                    nxt = spec['reqs'][len(got)] if len(got) < len(spec['reqs']) else None
+                    endk = ('raise', nxt)
+                    if nxt is not None:
+                        if isinstance(e, TimeoutError):
+                            record(nxt, ('timeout', 1))
+                        else:
+                            record(nxt, ('val', enc(e)), e)
+                    del e
+                box.setdefault('streams', []).append((spec, got, endk))
+
+            await asyncio.gather(*[caller(spec) for spec in case['callers']])
+            fu = case['nreq'] + 1
+            box['followup'] = fu
+            await do_call(dict(r=fu, timeout=FOREVER, bp=False))
+            detsched.SCHED.early_horizon = -1.0
+            calm = 0
+            for _ in range(60):
+                await asyncio.sleep(0.05)
+                if srv.backlog == 0 and not any(running.values()) and all(q.qsize() == 0 for q in allq):
+                    calm += 1
+                    if calm >= 2:
+                        break
+                else:
+                    calm = 0
+            box['idle_backlog'] = srv.backlog
+            box['gather_alive'] = srv._gather_thread.is_alive()
+
     def main():
         base_threads = {ts.tid for ts in detsched.SCHED.order if not ts.done}
         handler = _LedgerWarnings()
@@ -577,6 +663,14 @@ def run_case(case):
         box = {}
         try:
             servlet = build(tree, 'R')
+            if case.get('asyncsrv'):
+                import cooploop
+                loop = cooploop.CoopLoop()
+                try:
+                    loop.run_until_complete(amain(servlet, box))
+                finally:
+                    loop.close()
+                raise _AsyncDone()
             srv = Server(servlet, capacity=case['cap'])
             with srv:
                 box['wiring'] = wiring(srv)
@@ -652,6 +746,8 @@ def run_case(case):
                         calm = 0
                 box['idle_backlog'] = srv.backlog
                 box['gather_alive'] = srv._gather_thread.is_alive()
+        except _AsyncDone:
+            pass
         finally:
             _srvmod._SimpleThreadQueue, _svlmod._SimpleThreadQueue = saved
             if case.get('adversarial_id'):
